@@ -161,7 +161,9 @@ def run(rep, tier, seed):
                           {"script": jd.script[:nhead + nt1 + 1]}); continue
         m0 = nhead + nt1 + 1
         mops = ops[m0:m0 + nmut + 2]
-        bad = [o for o in mops if o.kind != "ok" and not (b.nearfull and o.kind == "err" and o.payload.startswith("NotEnoughSpace"))]
+        # lines the executor rejected because an earlier (failed) create produced no handle are not calls of the library
+        no_handle = lambda o: o.kind == "bad" and b"handle" in bytes.fromhex(o.payload or "")
+        bad = [o for o in mops if o.kind != "ok" and not no_handle(o) and not (b.nearfull and o.kind == "err" and o.payload.startswith("NotEnoughSpace"))]
         # nothing may be written outside the volume's structures, whatever the outcome
         stray = [(oi, r) for oi in range(m0, m0 + nmut + 2) for r in jd.regions.get(oi, []) if r[0].split(":")[0] in ("outside", "tail", "boot") or r[1].split(":")[0] in ("outside", "tail", "boot")]
         if stray:
